@@ -172,32 +172,28 @@ def bitB (v : Nat) : Bool := decide (v ≠ 0)
 
 theorem src_preload_bit_eq (s : Py.SliceSt R) : viewR bitB (preload_bit s) = SOp.preloadBit (view s) := by
   obtain ⟨bits, refs, off⟩ := s
-  unfold preload_bit SOp.preloadBit viewR view Py.bindO bitB
-  rw [bitAt_zero]
+  simp only [preload_bit, SOp.preloadBit, viewR, view, Py.bindO, bitB, bitAt_zero]
   cases bits with
   | nil => rfl
   | cons b rest => cases b <;> rfl
 
 theorem src_load_bit_eq (s : Py.SliceSt R) : viewR bitB (load_bit s) = SOp.loadBit (view s) := by
   obtain ⟨bits, refs, off⟩ := s
-  unfold load_bit preload_bit SOp.loadBit viewR view Py.bindO bitB Py.bindS Py.zoom
-  simp only [bitAt_zero, src_delitem_nat]
+  simp only [load_bit, preload_bit, SOp.loadBit, viewR, view, Py.bindO, bitB, Py.bindS, Py.zoom, bitAt_zero, src_delitem_nat]
   cases bits with
   | nil => rfl
   | cons b rest => cases b <;> rfl
 
 theorem src_preload_bool_eq (s : Py.SliceSt R) : viewR id (preload_bool s) = SOp.preloadBit (view s) := by
   obtain ⟨bits, refs, off⟩ := s
-  unfold preload_bool SOp.preloadBit viewR view Py.bindO
-  rw [bitAt_zero]
+  simp only [preload_bool, preload_bit, SOp.preloadBit, viewR, view, Py.bindO, Py.bindS, bitAt_zero]
   cases bits with
   | nil => rfl
   | cons b rest => cases b <;> rfl
 
 theorem src_load_bool_eq (s : Py.SliceSt R) : viewR id (load_bool s) = SOp.loadBit (view s) := by
   obtain ⟨bits, refs, off⟩ := s
-  unfold load_bool preload_bit SOp.loadBit viewR view Py.bindO Py.bindS Py.zoom
-  simp only [bitAt_zero, src_delitem_nat]
+  simp only [load_bool, load_bit, preload_bit, SOp.loadBit, viewR, view, Py.bindO, Py.bindS, Py.zoom, bitAt_zero, src_delitem_nat]
   cases bits with
   | nil => rfl
   | cons b rest => cases b <;> rfl
